@@ -149,7 +149,29 @@ func (f *chainFam) lgProject(s *lgSnap) M {
 			auth[l] = M{"num": int64(acc.GetAccountNumber()), "seq": int64(acc.GetSequence())}
 		}
 	}
-	out := M{"bal": bal, "bids": bids, "coll": num(s.coll), "supply": sup, "auth": auth}
+	// storage plans against the files they pay for, compared with big integers (sizes can be anything up to MaxInt64):
+	// per plan the sign of the space used, whether it fits the space bought, whether it equals the footprint
+	// (size x replication) of the owner's live plan-paid files
+	foot := map[string]*big.Int{}
+	for _, uf := range f.c.App.StorageKeeper.GetAllFileByMerkle(f.c.Ctx) {
+		if uf.Expires <= 0 {
+			if foot[uf.Owner] == nil {
+				foot[uf.Owner] = new(big.Int)
+			}
+			foot[uf.Owner].Add(foot[uf.Owner], new(big.Int).Mul(big.NewInt(uf.FileSize), big.NewInt(uf.MaxProofs)))
+		}
+	}
+	plans := []interface{}{}
+	for _, spi := range f.c.App.StorageKeeper.GetAllStoragePaymentInfo(f.c.Ctx) {
+		fp := foot[spi.Address]
+		if fp == nil {
+			fp = new(big.Int)
+		}
+		plans = append(plans, M{"owner": f.c.LabelOf(spi.Address), "neg": spi.SpaceUsed < 0, "fits": spi.SpaceUsed <= spi.SpaceAvailable,
+			"eq": big.NewInt(spi.SpaceUsed).Cmp(fp) == 0})
+	}
+	sortRecs(plans)
+	out := M{"bal": bal, "bids": bids, "coll": num(s.coll), "supply": sup, "auth": auth, "plans": plans}
 	if !fits || f.lgBig {
 		f.lgBig = true
 		return M{"big": true}
